@@ -497,7 +497,12 @@ def main(argv):
     if prop == "C13":
         # declaration / configuration typestate on plain and parametrized sequences (function-level cases)
         import c13p
-        f13, e13, d13, s13 = c13p.run(rng, budget * 0.25, lambda m, k, d: None)
+        def km13(msg, kind, d):
+            for k in known:
+                if k.get("concrete_pattern") and k["concrete_pattern"] in msg:
+                    return k["id"]
+            return None
+        f13, e13, d13, s13 = c13p.run(rng, budget * 0.25, km13)
         failures += f13
         evals += e13
         distinct |= {("c13p", i) for i in range(d13)}
